@@ -64,6 +64,14 @@ out += ["", "Changes that were missed at first and what was strengthened:", "",
         "  link inside vorbisfile chains; `C14_r3m2` (candidate packets sized in bits, not whole bytes: 1-7 bits over) - the 8-bit allowance of the window check now applies only to reservoirs smaller than one byte;",
         "  `C04_r3m1` (decoder rejects packets the rate manager truncated) - C04 has a stratum with average tracking off and a hard maximum below the nominal rate (saturation is measured and counted);",
         "  `C09_r3m2` (`ov_read` keeps the previous link's frame size for one call) - C09 repeats the linear read through the integer interface (C07 and C17 caught it as well).",
+        "  Second batch (C05, C06, C10, C11, C15, C16, C17, C18; 16 changes, 9 caught as the checks stood): `C06_r3m2` (`pcmout` pointers cached per block: wrong after a partial `vorbis_synthesis_read`) - every other C06 decode",
+        "  takes fewer samples than offered; `C11_r3m2` (a refused early `blockin` has already done its bookkeeping) - new disturbance 'blockin while output is pending, refused, drained, retried', after which nothing at all may differ;",
+        "  `C11_r3m1` (restart keeps the old count when packet numbers restart at 0) is observable only through vorbisfile seeks on links whose audio sits on one page: C07 and C08 report it, C11 cannot (its only effect at packet level",
+        "  is on packets k and k+1, which a disturbance may change); a 'restart, packets renumbered from 0' disturbance was added all the same; `C15_r3m1` (`vorbis_analysis_wrote` commits the count before refusing it) - C15's encode and a C04",
+        "  stratum now make an over-long report in mid-stream, which must be refused and leave the stream unchanged; `C16_r3m1` (comment tables grown geometrically by count, but the decoder allocates exact tables) - C16 appends tags to the",
+        "  structure the decoder filled in, writes it out and reads it back; `C18_r3m1` (per-candidate floor table not cleared: managed mode with a digitally silent channel) - 16th pipeline, managed encodes of the `gated` and `onset` signals;",
+        "  `C17_r3m1` (half-rate shift sampled before the packet fetch) only mattered because streaming chains lost the half-rate flag at link boundaries - that is a defect of the pinned tree (section 11, C20 now reads streaming chains",
+        "  at half rate); on the repaired tree the change no longer breaks the property and is kept as `superseded`.",
         "<!-- AUTOGEN-END -->"]
 p = os.path.join(V, 'DESIGN.md')
 s = open(p).read()
